@@ -260,6 +260,7 @@ type Frame struct {
 	heldAtLoop []string
 	heldAtLoopM map[*ssa.BasicBlock][]string
 	retInstr   ssa.Instruction
+	pending    *Val // the value about to be returned, while this frame's deferred calls run (spec name: returning)
 }
 
 func (fr *Frame) clone() *Frame {
